@@ -45,6 +45,10 @@ def run(ck):
     ck.rule("C07.R5", "bitmap typestate: every protocol run ends all-clear and delivers iff accepted", floor=100)
     ck.rule("C07.R5s", "effect summaries extracted from MIR match a recognised shape", floor=9)
     ck.rule("C07.R9", "a stateful per-layer filter's verdict does not depend on spans already exited: EnvFilter's per-thread scope stack is pushed and popped under one predicate (as C11.R5)", floor=3)
+    ck.rule("C07.R12", "what an unfiltered layer receives does not depend on how the registry is held: the stack recognises the Registry (plain, boxed or shared) "
+            "and turns its summed per-layer `never` into `sometimes` for the layers that have no filter (as C08.R12)", floor=2)
+    ck.rule("C07.R11", "an unfiltered layer is not hidden by its neighbours' filters because a None sits next to it: a composite is `absent` only if every part is, "
+            "so a tree with a real layer in it is never mistaken for a fully per-layer-filtered one (as C09.R17)", floor=3)
     ck.rule("C07.R10", "a per-layer Targets / EnvFilter never publishes a hint below what its own table accepts: DirectiveSet::add keeps max_level an upper bound, also when a directive is replaced (as C08.R4)", floor=1)
     ck.rule("C07.R8", "a filter below a layer that answers `sometimes` is still told about every callsite (pick_interest asks the inner value; as C09.R5)", floor=1)
     ck.rule("C07.R7", "Vec<S> / a Layered tree claim to be per-layer-filtered only if every part is", floor=2)
@@ -68,6 +72,9 @@ def run(ck):
     from rules import C11
     C11.r5(ck, F, rid="C07.R9")
     C08.directive_add_rule(ck, R, rid="C07.R10")
+    from rules import C09 as _C09
+    _C09.none_marker_conjunction(ck, F, rid="C07.R11")
+    C08.inner_is_registry_rule(ck, F, rid="C07.R12")
 
 
 # ------------------------------------------------------------------ R1
